@@ -84,6 +84,19 @@ def run(tier, seed):
     for x in cor[: (150 if quick else len(cor))]:
         srcs.append((x["kind"], x["text"], {}))
     srcs += SV_EXTRA
+    # byte-level layouts of the same sources: CRLF line ends, CR-free tabs / form feeds, multi-byte comments, no final
+    # newline - what a file reader could "normalise" on one side only (round-2 seeded change: CRLF folded to LF when a
+    # file is read, not when a string is given)
+    import treecheck
+    lay = []
+    for j, (kind, text, incs) in enumerate(srcs):
+        if j % 3 == 0:
+            lay.append((kind, text.replace("\r\n", "\n").replace("\n", "\r\n"), {k: t.replace("\n", "\r\n") for k, t in incs.items()}))
+        elif j % 3 == 1 and kind == "sv":
+            lay.append((kind, treecheck.decorate(text, rng, heavy=True), incs))
+        else:
+            lay.append((kind, "\ufeff"[:0] + text.rstrip("\n") + " // \u00e9 last line without newline", incs))
+    srcs += lay
     pcases = []
     for i, (kind, text, incs) in enumerate(srcs):
         files = dict(incs)
